@@ -168,6 +168,10 @@ struct MeshBox {
         add_prop<double, Entity::Cell>("private", "", Conv<double>::def());
         add_prop<bool, Entity::Cell>("shared", "cb" + sfx, Conv<bool>::def());
         add_prop<int, Entity::Mesh>("shared", "mi" + sfx, Conv<int>::def());
+        // value types whose copy differs from their move (copy_property_elements, swaps, erases)
+        add_prop<std::string, Entity::Cell>("shared", "cs" + sfx, Conv<std::string>::def());
+        add_prop<std::string, Entity::HalfFace>("shared", "hfs" + sfx, Conv<std::string>::def());
+        add_prop<std::string, Entity::Edge>("private", "", Conv<std::string>::def());
     }
 
     // give every slot that still carries the default id a fresh id and set all
